@@ -269,6 +269,61 @@ def _replay(job):
 _replay.k = 0
 
 
+def ragged_cases(root):
+    """a truncated recording: the image feature of the source file has three
+    events fewer than the scalar features.  The export is limited to the
+    events all requested features have; every feature of the output has that
+    many events and so says the event count"""
+    import dclab
+    import h5py
+    import warnings
+    from dclab.rtdc_dataset import writer
+    writer.CHUNK_SIZE_BYTES = 200
+    out, n_ok = [], 0
+    for n in (5, 12):
+        src = root / ("ragged_%d.rtdc" % n)
+        gen.write_rtdc(src, list(range(1, n + 1)),
+                       feats=("deform", "area_um", "image"))
+        with h5py.File(src, "a") as h5:
+            h5["events/image"].resize(n - 3, axis=0)
+        for mode in ("all selected", "one excluded", "unfiltered"):
+            op = root / ("ragged_out_%d.rtdc" % n)
+            try:
+                with warnings.catch_warnings():
+                    warnings.simplefilter("ignore")
+                    with dclab.new_dataset(src) as ds:
+                        if mode == "one excluded":
+                            ds.filter.manual[1] = False
+                        ds.apply_filter()
+                        ds.export.hdf5(op, features=["deform", "area_um",
+                                                     "image"],
+                                       filtered=mode != "unfiltered",
+                                       basins=False, override=True)
+                with h5py.File(op, "r") as h5:
+                    lens = {f: len(h5["events"][f]) for f in h5["events"]
+                            if f in ("deform", "area_um", "image")}
+                    cnt = int(h5.attrs["experiment:event count"])
+                    ids = gen.decode_scalar("deform", h5["events/deform"][:])
+                want = [i for i in range(1, n - 2)
+                        if not (mode == "one excluded" and i == 2)]
+                if len(set(lens.values())) != 1 or cnt != len(want) \
+                        or ids != want:
+                    out.append(("export of a source with features of unequal "
+                                "length is not limited to the common events "
+                                "(%s)" % mode,
+                                "n=%d lengths %s count %s ids %s want %s" % (
+                                    n, lens, cnt, ids, want)))
+                n_ok += 1
+            except Exception as exc:
+                out.append(("export of a source with features of unequal "
+                            "length raises %s (%s)" % (type(exc).__name__,
+                                                       mode), repr(exc)[:120]))
+            finally:
+                if op.exists():
+                    op.unlink()
+    return n_ok, out
+
+
 def tdms_cases(root, rng_seed, count):
     """exports of the repository's tdms fixtures, compared by value"""
     import dclab
@@ -396,6 +451,11 @@ def main(tier, seed, replay=None):
         ev.extra["tdms_exports"] = n_ok
         for sig, detail in viols:
             rep.violation(sig, detail, {}, size=50)
+        n_ok, viols = ragged_cases(root)
+        ev.traces += n_ok
+        ev.extra["ragged_source_exports"] = n_ok
+        for sig, detail in viols:
+            rep.violation(sig, detail, {}, size=12)
     finally:
         shutil.rmtree(root, ignore_errors=True)
     return rep.finish()
